@@ -57,8 +57,8 @@ out = ['## 9. Seeded changes and which checks catch them', '',
        'with a larger `min_dt_ratio`, a strong sample only in the trailing part-second, upper fraction 1.0 on float records, positional `im, se`, a first sample',
        '2^55.. times the later oscillation, integer-dtype input of the cycle counter, the omitted `keep_adj_zeros`, `interp=True`, records of more than 50 000 /',
        '65 536 samples through sparse Coq-side checkers, integer travel times). Round 7: 2 of 40 missed (C02_14: single-precision state above 2^23',
-       'entries; C08_14: `remove_rolling_average(mtype=acceleration)` without invalidation; generators added), 14 first caught by a broken source tie only',
-       '(left as they are: the remaining time went into the final runs). Miss rate per round: 19 %, 25 %, 22 %, 10 %, 10 %, 5 %. Rows naming `translator`',
+       'entries; C08_14: `remove_rolling_average(mtype=acceleration)` without invalidation; generators added), 14 first caught by a broken source tie only,',
+       'for 13 of which generators were then added (C04_14 needs the caller to edit a settings array in place and is left to the tie). Miss rate per round: 19 %, 25 %, 22 %, 10 %, 10 %, 5 %. Rows naming `translator`',
        'or `proof:` as the first reporting site ended `no-failing-input-found` or name the broken obligation first. What was added for the earlier rounds (see 7.3):',
        'object read → change → read-again histories (C03, C07, C08, C09, C10), purity/repeatability wrappers (`core.guarded_pure`) and',
        'non-float64 storage (C01, C02, C06, C08, C09, C11, C13, C17, C18, C19), long-record × many-period batches and object-level refinement',
